@@ -712,6 +712,11 @@ def _check_invalid_envelope(content: str, pos: int, line: int, column: int) -> L
     )
 
 
+# "%" followed (after optional whitespace) by "::" closes a key; matched in place instead of
+# slicing and stripping the rest of the input at every "%"
+_WS_THEN_DOUBLE_COLON = re.compile(r"\s*::")
+
+
 def tokenize(content: str, lenient: bool = False) -> tuple[list[Token], list[Any]]:
     """Tokenize OCTAVE content with ASCII alias normalization.
 
@@ -1152,7 +1157,7 @@ def tokenize(content: str, lenient: bool = False) -> tuple[list[Token], list[Any
                     TokenType.NUMBER,
                     TokenType.IDENTIFIER,
                 )
-                and not content[pos + 1 :].lstrip().startswith("::")
+                and not _WS_THEN_DOUBLE_COLON.match(content, pos + 1)
             ):
                 prev_val = str(tokens[-1].value if tokens[-1].raw is None else tokens[-1].raw)
                 if prev_val and prev_val[-1:].isalnum():
